@@ -97,4 +97,6 @@ Fixpoint c05_steps_ok (dec : string -> option (string * Z * Z)) (full : bool)
 (* the property's full statement on the observed scenario *)
 Definition c05_monitor (c : c05_case) : bool :=
   let dec := fun p => assoc_str p (sc_decode (fst c)) in
-  c05_steps_ok dec true (sc_steps (fst c)) (snd c).
+  (* only the part of the scenario inside the environment assumption (see Model/C01Corr.v) *)
+  let steps := allowed_prefix false (sc_steps (fst c)) in
+  c05_steps_ok dec true steps (snd c).
